@@ -297,9 +297,48 @@ type s1World struct {
 	active bool
 	conn   secs1.Connection
 	ln     *netsim.Listener
+
+	lmu          sync.Mutex
+	libConns     []*netsim.Conn
+	libListeners []*netsim.Listener
+}
+
+// s1RecListener records the connections a SECS-I library accepts.
+type s1RecListener struct {
+	*netsim.Listener
+	w *s1World
+}
+
+func (l *s1RecListener) Accept() (net.Conn, error) {
+	c, err := l.Listener.Accept()
+	if err != nil {
+		return nil, err
+	}
+	l.w.lmu.Lock()
+	l.w.libConns = append(l.w.libConns, c.(*netsim.Conn))
+	l.w.lmu.Unlock()
+	return c, nil
+}
+
+func (w *s1World) leaked() []string {
+	w.lmu.Lock()
+	defer w.lmu.Unlock()
+	var out []string
+	for _, c := range w.libConns {
+		if !c.Closed() {
+			out = append(out, fmt.Sprintf("conn #%d", c.ID))
+		}
+	}
+	for i, l := range w.libListeners {
+		if !l.Closed() {
+			out = append(out, fmt.Sprintf("listener #%d", i))
+		}
+	}
+	return out
 }
 
 type s1Opt struct {
+	noListen      bool
 	active, equip bool
 	device        uint16
 	opts          []secs1.Option
@@ -313,6 +352,9 @@ func newS1World(o s1Opt) (*s1World, error) {
 			if err != nil {
 				return nil, err
 			}
+			w.lmu.Lock()
+			w.libConns = append(w.libConns, c)
+			w.lmu.Unlock()
 			return c, nil
 		}),
 		secs1.WithListener(func(ctx context.Context, network, address string) (net.Listener, error) {
@@ -320,7 +362,10 @@ func newS1World(o s1Opt) (*s1World, error) {
 			if err != nil {
 				return nil, err
 			}
-			return l, nil
+			w.lmu.Lock()
+			w.libListeners = append(w.libListeners, l)
+			w.lmu.Unlock()
+			return &s1RecListener{Listener: l, w: w}, nil
 		}),
 		secs1.WithDeviceID(o.device),
 		secs1.WithConnectionOption(hsms.WithLogger(&capLogger{})),
@@ -345,7 +390,7 @@ func newS1World(o s1Opt) (*s1World, error) {
 		return nil, err
 	}
 	w.conn = c
-	if o.active {
+	if o.active && !o.noListen {
 		l, err := w.nw.Listen(w.addr)
 		if err != nil {
 			return nil, err
